@@ -1040,6 +1040,63 @@ def r12_router_errors_are_not_assumed_away(ctx):
     ctx.floor('C09.R12', 'matches on matchit::InsertError that single out Conflict', n, 2)
 
 
+def r13_every_module_entered_is_on_the_history(ctx):
+    ctx.rule('C09.R13', 'P2/P7 termination argument of a recursive walk: `index_local_types` walks the module tree of every crate pavexc loads and follows '
+             '`pub use` re-exports; what stops it on a re-export cycle is the navigation history (the set of modules on the current path). The guard '
+             'works only if every module that is walked INTO puts itself on the history its children receive: for every recursive call of '
+             '`index_local_types`, the history argument derives from a set on which `insert` was called on the way to that call (it dominates the '
+             'call) — never from the function\'s own history parameter unchanged. A re-exported module that is only looked up (`contains`) and '
+             'not recorded makes a cycle that runs through re-exports invisible: the walk recurses until the stack overflows, no diagnostic.')
+    root = None
+    for b in ctx.fb.bodies('rustdoc_processor'):
+        if not b.is_promoted and b.nid == b.nroot and b.nid.endswith('indexing::index_local_types'):
+            root = b
+    if not ctx.need('C09.R13', 'rustdoc_processor::indexing::index_local_types', root):
+        return
+    b = root
+    defs = Defs(b)
+    inserts = []     # (bb, root set local)
+    def set_root(pl):
+        seen = set()
+        while pl is not None and pl['l'] not in seen:
+            seen.add(pl['l'])
+            ds = defs.full.get(pl['l'], [])
+            if len(ds) != 1:
+                return pl['l']
+            nd = ds[0][2]
+            if nd.get('k') == 'call':
+                if (callee(nd) or '').split('::')[-1] in ('clone', 'deref', 'deref_mut', 'borrow', 'as_ref') and nd['args']:
+                    return ('clone-of', set_root(op_place(nd['args'][0]))) if (callee(nd) or '').endswith('::clone') else set_root(op_place(nd['args'][0]))
+                return pl['l']
+            rv = nd.get('rv')
+            if rv and rv['k'] == 'use':
+                pl = op_place(rv['op'])
+            elif rv and rv['k'] in ('ref', 'cfd'):
+                pl = rv['pl']
+            else:
+                return pl['l']
+        return pl['l'] if pl else None
+    for bb, t in b.calls():
+        if (callee(t) or '').split('::')[-1] == 'insert' and t.get('aty') and 'IndexSet<rustdoc_types::Id' in t['aty'][0]:
+            r = set_root(op_place(t['args'][0]))
+            inserts.append((bb, r))
+    n = 0
+    for bb, t in b.calls():
+        if strip_generics(callee(t) or '') != b.nroot:
+            continue
+        hist = [a for a, ty in zip(t['args'], t.get('aty', [])) if ty and 'IndexSet<rustdoc_types::Id' in ty]
+        if not hist:
+            continue
+        n += 1
+        r = set_root(op_place(hist[0]))
+        base = r[1] if isinstance(r, tuple) else r
+        ok = any(ir == base or (isinstance(ir, tuple) and ir[1] == base) or ir == r for ib, ir in inserts if b.dominates(ib, bb))
+        is_param = isinstance(base, int) and 1 <= base <= b.raw['argc'] and not any((ir == base) for ib, ir in inserts if b.dominates(ib, bb))
+        ctx.ob('C09.R13', 'module-on-the-history|bb%d' % bb, ok and not is_param, b.loc(bb, t),
+               'the history handed to this recursive call derives from a set that was extended on the way to it: %s' % (ok and not is_param))
+    ctx.floor('C09.R13', 'recursive calls of index_local_types', n, 3)
+
+
 def check(ctx):
     r4_nothing_assumes_success_before_the_gate(ctx)
     r1_no_silent_failure(ctx)
@@ -1053,3 +1110,4 @@ def check(ctx):
     r10_early_passes_do_not_underflow(ctx)
     r11_no_import_processing_without_docs(ctx)
     r12_router_errors_are_not_assumed_away(ctx)
+    r13_every_module_entered_is_on_the_history(ctx)
